@@ -118,3 +118,24 @@ class FwdTarget(metaclass=StableHashMeta):
         namespace = "urn:c"
 
     v: int = field(default=0, metadata={"type": "Attribute"})
+
+
+@dataclass
+class ROther(metaclass=StableHashMeta):
+    class Meta:
+        name = "rother"
+        namespace = "urn:c"
+
+    label: Optional[str] = field(default=None, metadata={"type": "Element"})
+
+
+@dataclass
+class RNode(metaclass=StableHashMeta):
+    """Recursive union: best-match selection happens at every level."""
+
+    class Meta:
+        name = "rnode"
+        namespace = "urn:c"
+
+    value: Optional[int] = field(default=None, metadata={"type": "Element"})
+    child: Optional[Union["RNode", ROther]] = field(default=None, metadata={"type": "Element"})
